@@ -2,8 +2,8 @@
    Cao.HandleTableProofs (on top of Cao.HashMapProofs / Cao.ProbeProofs), Cao.HandleTableInst. *)
 From Coq Require Import Arith NArith List Bool.
 Import ListNotations.
-From Cao Require Import Bits ProbeDefs HashMap HashMapProofs HandleTable HandleTableProofs
-     HandleTableConsts HandleTableInst.
+From Cao Require Import Bits BitsProofs ProbeDefs HashMap HashMapProofs HandleTable HandleTableProofs
+     HandleTableConsts HandleTableInst HashMapConserve HandleTableConserve.
 
 Notation CTInv := (TInv (V:=_) fib_home32).
 Notation CTLook := (lookup ueqb fib_home32).
@@ -109,3 +109,47 @@ Example C13_nonvacuous :
   map fst (snd r) = [TOUnit _; TOOptV (Some 60%N); TOOptV (Some 50%N); TOOptV (Some 50%N);
                      TOOptV (Some 60%N); TOOptV None; TONat _ 1; TONat _ 4].
 Proof. vm_compute. reflexivity. Qed.
+
+(* Conservation (drop exactly once), every history from a new table of any requested capacity,
+   allocation faults included: the values handed to the table ([tgiven]: the argument of insert,
+   the value of entry().or_insert_with when it is inserted, the value written through get_mut when
+   the handle is present, the copies a clone makes) are, as a multiset, exactly the values still
+   stored plus those the table dropped plus those remove handed back. *)
+Theorem C13_conservation :
+  forall (V : Type) (clone_v : V -> V) (c : nat) (ops : list (top V)),
+    Forall (@valid_top V) ops ->
+    let '(m', _) := crun V clone_v (ht_new V ht_min_cap_nat c) ops in
+    let '(gs, ds, rs) := tledger fib_home32 ht_needs_grow ht_grow_cap ht_min_cap_nat ht_reserve_cap clone_v
+                                 (ht_new V ht_min_cap_nat c) ops in
+    Permutation.Permutation gs (vals m' ++ ds ++ rs).
+Proof.
+  intros. apply ht_history_conserves_new; auto using fib_home32_lt, ht_needs_grow_lt, ht_grow_cap_gt,
+    ht_min_cap_ge2, ht_min_cap_pow2, ht_reserve_cap_ge.
+Qed.
+Print Assumptions C13_conservation.
+
+Theorem C13_step_conserves :
+  forall (V : Type) (clone_v : V -> V) (m : hmap unit V) (o : top V), CTInv m -> valid_top o ->
+    let '(m', out, d) := cstep V clone_v m o in
+    tbalanced m (tgiven fib_home32 ht_needs_grow ht_grow_cap ht_min_cap_nat clone_v m o out) m' d (treturned o out).
+Proof.
+  intros. apply ht_step_conserves; auto using fib_home32_lt, ht_needs_grow_lt, ht_grow_cap_gt,
+    ht_min_cap_ge2, ht_min_cap_pow2, ht_reserve_cap_ge.
+Qed.
+Print Assumptions C13_step_conserves.
+
+(* The only key the table refuses is the handle 0 (the marker of an empty slot).  Since 3f22e7c "handles are
+   never 0" no constructor of Handle produces it: Handle::from_bytes / from_str / from_slice / from_bytes_iter
+   (FNV-1a-32 of the bytes), Handle::from_u32 / from_u64 / from_i64 (hash_u64) and Handle + Handle (xor) map a
+   result of 0 to 1.  (Before, a name, a card index path or a closure label that hashed to 0 reached
+   insert / entry with the key 0: findings N-C04-1..3.) *)
+Theorem C13_constructed_handles_nonzero :
+  (forall bs : list N, handle_of_bytes bs <> 0%N) /\
+  (forall k : N, handle_from_u32 k <> 0%N) /\
+  (forall k : N, handle_from_u64 k <> 0%N) /\
+  (forall a b : N, handle_add a b <> 0%N).
+Proof.
+  repeat split; intros; [apply handle_of_bytes_neq | apply handle_from_u32_neq | apply handle_from_u64_neq
+                        | apply handle_add_neq].
+Qed.
+Print Assumptions C13_constructed_handles_nonzero.
